@@ -92,7 +92,12 @@ def run(ctx, host=None):
             okr = isinstance(r, ast.Return) and ((kind == 'const' and isinstance(r.value, ast.Constant) and r.value.value is val) or
                                                  (kind == 'name' and isinstance(r.value, ast.Name) and r.value.id == val))
             only = len([x for x in st.body if not (isinstance(x, ast.Expr) and isinstance(x.value, ast.Constant))]) == 1
-            if okr and only:
+            pre = next((p_ for p_ in sc.node.body[:sc.node.body.index(st)] if not any(p_ is h for h in handled.values())
+                        and any(isinstance(x, ast.Return) for x in ast.walk(p_))), None)
+            if pre is not None:
+                chk.bad(R1, sc.qualname, f'CompressMode.{mem} branch', f'a mode-independent statement before the {mem} branch (`{norm(pre).splitlines()[0][:60]}`) can return first: mode {mem} no longer '
+                        f'answers {"`" + str(val) + "`"} for every source', where=f'{sc.module.relpath}:{pre.lineno}')
+            elif okr and only:
                 chk.ok(R1, sc.qualname, f'{mem} -> {norm(r.value)}', detail='constant answer demanded by the mode')
             else:
                 chk.bad(R1, sc.qualname, f'CompressMode.{mem} branch', f'mode {mem} must answer {"`" + str(val) + "`"} unconditionally', where=f'{sc.module.relpath}:{st.lineno}')
